@@ -34,7 +34,7 @@ ASSUMPTIONS = ['sqlite column names are non-empty and distinct case-insensitivel
 
 SPECIAL = ['"', "'", '\\', '[', ']', '{', '}', '(', ')', '#', '%', ' ', '\t', '\n', '\r', ',', ';', ':', '=', '*', '.', '-', '+', '!', '?', '@', '$', '^', '&', '|', '~', '`', '<', '>', '/']
 PLAIN = list('abcxyzKV019_')
-NONASCII = ['é', 'ж', '€', '名', '𝄞', '😀', 'ß']
+NONASCII = ['é', 'ж', '€', '名', '𝄞', '😀', 'ß', 'e\u0301', '\u212b', '\u2126', 'a\u030a']      # incl. decomposed / compatibility forms: names are compared as they are
 ATTR_TOKEN = re.compile(r'(?:^|[^_a-zA-Z0-9])[ab]\.[_a-zA-Z]')
 DIRECT_POOL = ['u_name', 'u_age', 'City', 'x1', 'col_a', 'Zip', '_id', 'u_v', 'weight_kg', 'Q', 'a1', 'a2', 'a3', 'b1', 'a10', 'aNR_', 'NR_']
 
